@@ -5,6 +5,9 @@ model     lean/CRModel/CRXmlWDoc.lean (complete tree encoders), lean/CRModel/CRX
           harness/translate/xsd.py on every run), lean/CRModel/XmlNum.lean (number formatters), lean/CRModel/CRXml.lean
           (node builders as child-name sequences)
 theorems  lean/CRProps/C03.lean
+generator harness/c03_gen.py (content + spec["var"]: construction path, value classes, entry points, writer object), harness/c03_dims.py
+          (the table of every constructor parameter / setter / public operation, checked against the live signatures on every run;
+          the histories applied between building and writing)
 oracle    bytes written by CommonRoadFileWriter -> lxml.etree.XMLSchema(shipped XSD) + a scan for exponent/nan/inf numbers
           + CommonRoadFileReader on the same file.
 """
@@ -37,7 +40,16 @@ RULE = ("a case is one schema-expressible scenario + planning-problem set (JSON 
         "boolean / integer / time texts, unknown or missing attributes, benign reorderings inside xs:all) go through lxml and "
         "the Lean validator. A second stream: single numbers (all magnitudes 5e-324..1.8e308, rounding boundaries, repr "
         "switch-over points 1e-4 / 1e16) x precision 0..12 through float_to_str / decimal_to_str. Quick: 260 documents, ~2000 "
-        "mutants, 4000 numbers.")
+        "mutants, 4000 numbers. Beyond the content every document draws (spec['var'], c03_gen.gen_var; the table of all constructor "
+        "parameters / setters / public operations is harness/c03_dims.py, checked against the live signatures on every run): the "
+        "construction path (constructors / setters + add_* methods incl. re-assigned ids), numpy scalar types (np.float64, np.float32 "
+        "lengths), Python-list positions, 3-D lanelet vertices, repeated references, the entry point (single objects / lists / signs, "
+        "lights and intersections through Scenario.add_objects with lanelet ids, references added by the library, explicit cleanup_*), "
+        "the goal state class, a history before the write (setters handed their own values, read-only queries, failing operations, "
+        "removals, translate_rotate, convert_to_2d, deepcopy / pickle / network copy), what the writer object is (facade / "
+        "XMLFileWriter, author / tags / location overrides, precision spec / default / 0 / 15 / 20, filename None, check_validity) and "
+        "what it did before (a full write, write_scenario_to_file, a write failing at the end or half-way, a skipped write, another "
+        "writer or a protobuf write in between), and which reader entry point reads the file back.")
 ASSUMPTIONS = [
     "schema-expressible (the property's own restriction) is what harness/c03_gen.py documents: enum members whose value the XSD "
     "lists, initial states at time 0 with the required elements, interval goal states, a prediction for every dynamic/phantom "
@@ -46,6 +58,13 @@ ASSUMPTIONS = [
     "preconditions)",
     "str(float) of a finite float is -?d+(.d+)?(e[+-]?d+)? (contract of Python's repr; checked on every sampled number)",
     "np.format_float_positional(x, trim='0') prints the digits of the shortest repr shifted by the exponent (sampled)",
+    "outside the quantifier (named, no verdict): Scenario.remove_lanelet / erase_lanelet_network results that are no longer "
+    "schema-expressible (an incoming left without lanelets; goal lanelets of the planning problems, which the scenario does not know) "
+    "— decided by CR.C03.Expressible on the data read off the objects, counted as hist/left-the-quantifier; state positions given as "
+    "tuples (silently not written) or with 3 coordinates (obstacle constructors reject them); traffic lights given by a colour list "
+    "without a cycle; dynamic / phantom obstacles without prediction; DynamicObstacle.update_initial_state (initial time > 0); state "
+    "classes without a 2020a element (PMState, KSTState, STDState, input / lateral / longitudinal states); OverwriteExistingFile."
+    "ASK_USER_INPUT (needs a terminal); the file write_scenario_to_file itself produces (no planning problem: the XSD requires one)",
 ]
 TRUSTED = [
     "'accepted by the library's own reader' is not a theorem of C03: it is evaluated by the oracle (CommonRoadFileReader on the written "
@@ -58,7 +77,17 @@ REQUIRED_BUCKETS = ["doc/valid", "doc/reader-ok", "num/exponent-repr-small", "nu
                     "mutant/valid", "mutant/invalid", "mutant/swap", "mutant/number", "mutant/ref", "mutant/id", "mutant/enum",
                     "builder/lanelet", "builder/dynamicObstacle", "builder/state",
                     "tree/compared", "tree/expressible", "builder/dyn-shape-default", "builder/dyn-shape-offcentre-or-rotated", "builder/signalState", "precision/1", "precision/12",
-                    "num/orientation<1e-4", "fmt/float_to_str"]
+                    "num/orientation<1e-4", "fmt/float_to_str",
+                    # dimensions of harness/c03_dims.py (construction path, value classes, entry points, histories, writer object)
+                    "var/setters", "var/np", "var/np32", "var/pos_list", "var/lanelet3d", "var/dup_refs", "var/refs_by_library",
+                    "var/cleanup", "var/goal-KSState", "var/goal-InitialState", "entry/add-list", "entry/add-scenario",
+                    "hist/reassign", "hist/queries", "hist/fail", "hist/remove", "hist/transform", "hist/convert2d", "hist/copy",
+                    "hist/pickle", "hist/network-copy", "writer/XMLFileWriter", "writer/override", "writer/precision-default",
+                    "writer/precision-0", "writer/precision-15", "writer/precision-20", "doc/second-write-of-one-writer",
+                    "writer/after-write_scenario_to_file", "writer/after-failed-write", "writer/after-half-written",
+                    "writer/after-skipped-write", "writer/decoy-between", "writer/protobuf-between", "writer/check_validity=True",
+                    "writer/filename-none", "entry/reader-lanelet-assignment", "entry/reader-network-only", "entry/check_validity",
+                    "dims/table-checked"]
 WORKERS = {"quick": 1, "thorough": 8}
 
 XS_DECIMAL = re.compile(r"[+-]?([0-9]+(\.[0-9]*)?|\.[0-9]+)\Z")
@@ -379,7 +408,7 @@ def builder_items(sc, pps, writer_location, writer_tags, root):
         add("bound", {"n": len(la.right_vertices), "marking": isinstance(la.line_marking_right_vertices, LineMarking) and
                       la.line_marking_right_vertices is not LineMarking.UNKNOWN}, n.find("rightBound"))
         for p in n.find("leftBound").findall("point")[:1]:
-            add("point", {"z": False}, p)
+            add("point", {"z": la.left_vertices.shape[1] == 3}, p)
         if la.stop_line:
             s = la.stop_line
             add("stopLine", {"points": s.start is not None or s.end is not None, "marking": bool(s.line_marking),
@@ -644,7 +673,7 @@ def doc_data(sc, pps, loc, tags, writer_meta, precision, date):
     geo = env = None
     if loc.geo_transformation is not None:
         g = loc.geo_transformation
-        geo = {"ref": g.geo_reference, "x": _num(g.x_translation), "y": _num(g.y_translation), "rot": _num(g.z_rotation),
+        geo = {"ref": g.geo_reference if isinstance(g.geo_reference, str) else "", "x": _num(g.x_translation), "y": _num(g.y_translation), "rot": _num(g.z_rotation),
                "scale": _num(g.scaling)}
     if loc.environment is not None:
         e = loc.environment
@@ -719,29 +748,150 @@ def scan_numbers(root):
     return bad
 
 
+def _innermost(exc, suffixes):
+    """Class.function of the innermost traceback frame inside the given library files (part of the failure key)."""
+    name, tb = "?", exc.__traceback__
+    while tb is not None:
+        code = tb.tb_frame.f_code
+        if code.co_filename.endswith(suffixes):
+            loc = tb.tb_frame.f_locals
+            owner = loc.get("cls") if isinstance(loc.get("cls"), type) else (type(loc["self"]) if "self" in loc else None)
+            name = (owner.__name__ + "." if owner is not None else "") + code.co_name
+        tb = tb.tb_next
+    return name
+
+
+def _writer_function(exc):
+    return _innermost(exc, ("file_writer_xml.py", "file_writer_interface.py", "file_writer.py"))
+
+
+def _reader_function(exc):
+    return _innermost(exc, ("file_reader_xml.py",))
+
+
+def _poison(pps):
+    """A planning-problem set the writer chokes on after the whole scenario has been appended to the root node."""
+    saved = pps._planning_problem_dict
+    pps._planning_problem_dict = {**saved, -1: object()}
+    return saved
+
+
 def write_doc(ctx, spec):
-    """-> (status, payload): ('ok', (path, sc, pps, loc, tags)) | ('build', msg) | ('write', exc)"""
+    """-> (status, payload): ('ok', (path, sc, pps, loc, tags, (author, affiliation, source), precision)) | ('build', msg) |
+    ('write', exc).  spec["var"] (c03_gen.gen_var) says how the objects were assembled, what happened to them before the write
+    (c03_dims.apply_history) and what the writer object is and did before."""
+    import contextlib
+    import io
+    import random
+    import warnings
+    import c03_dims
     from commonroad.common.file_writer import CommonRoadFileWriter
     from commonroad.common.util import FileFormat
     from commonroad.common.writer.file_writer_interface import OverwriteExistingFile
+    from commonroad.common.writer.file_writer_xml import XMLFileWriter
+    from commonroad.scenario.scenario import Location, Tag
+    V = spec.get("var") or {}
+    W = V.get("writer") or {}
+    tags_seen = []
     try:
         sc, pps, kw = c03_gen.build(spec)
+        with warnings.catch_warnings():
+            warnings.simplefilter("ignore")
+            sc, pps = c03_dims.apply_history(sc, pps, V, tags_seen)
     except Exception as e:  # noqa  -- the constructors rejected the spec: not a writer matter
         return "build", f"{type(e).__name__}: {str(e)[:160]}"
+    ctx.tag(*tags_seen)
+    for k in ("setters", "np", "np32", "refs_by_library", "cleanup", "lanelet3d", "dup_refs", "pos_list", "geo_default", "np_state"):
+        if V.get(k):
+            ctx.tag(f"var/{k}")
+    if V:
+        ctx.tag(f"entry/add-{V.get('entry')}", f"var/goal-{V.get('goal_cls')}")
+    r = random.Random(V.get("hseed", 0))
     path = os.path.join(ctx.tmpdir(), f"doc_{ctx.worker}.xml")
+    prec = W.get("precision", "spec")
+    eff_prec = spec["precision"] if prec == "spec" else (4 if prec == "default" else prec)
+    kw = {} if prec == "default" else {"decimal_precision": eff_prec}
+    meta, eff_tags, eff_loc = (sc.author, sc.affiliation, sc.source), sc.tags, sc.location
+    over = {}
+    if W.get("override"):
+        ctx.tag("writer/override")
+        meta = ("writer <&> " + spec["author"][::-1], "", "écrit 'par' \"" + spec["source"] + "\"")
+        eff_tags = set(r.sample(sorted(Tag, key=lambda t: t.name), r.choice([0, 1, 3])))
+        eff_loc = Location(2867714, 48.262333, 11.668775, None, sc.location.environment if sc.location is not None else None)
+        over = {"author": meta[0], "affiliation": meta[1], "source": meta[2], "tags": eff_tags, "location": eff_loc}
+    cwd = os.getcwd()
     try:
-        w = CommonRoadFileWriter(sc, pps, file_format=FileFormat.XML, **kw)
-        import contextlib
-        import io
-        with contextlib.redirect_stdout(io.StringIO()):
-            if spec.get("precision", 4) % 3 == 0:
-                # every file the writer produces has to be valid, also the one a REUSED writer object produces
+        with contextlib.redirect_stdout(io.StringIO()), warnings.catch_warnings():
+            warnings.simplefilter("ignore")
+            if W.get("cls") == "xml":
+                ctx.tag("writer/XMLFileWriter")
+                if over:      # the writer's own setters
+                    w = XMLFileWriter(sc, pps, location=over["location"], **kw)
+                    w.author, w.affiliation, w.source, w.tags = over["author"], over["affiliation"], over["source"], over["tags"]
+                    w.root_node = None
+                else:
+                    w = XMLFileWriter(sc, pps, **kw)
+            else:
+                w = CommonRoadFileWriter(sc, pps, file_format=FileFormat.XML, **over, **kw)
+            ctx.tag(f"writer/precision-{prec}")
+            if W.get("decoy"):    # other writers constructed (and used) in between: process-global precision
+                ctx.tag("writer/decoy-between")
+                d = CommonRoadFileWriter(sc, pps, decimal_precision=(eff_prec + 5) % 13)
+                if r.random() < 0.5:
+                    d.write_to_file(path + ".decoy", OverwriteExistingFile.ALWAYS)
+            if W.get("pb_between"):
+                ctx.tag("writer/protobuf-between")
+                try:
+                    CommonRoadFileWriter(sc, pps, file_format=FileFormat.PROTOBUF).write_to_file(path + ".pb", OverwriteExistingFile.ALWAYS)
+                except Exception:  # noqa  -- the protobuf writer's own restrictions (C15)
+                    pass
+            first = W.get("first")
+            if first is None and not V and spec.get("precision", 4) % 3 == 0:
+                first = "write_to_file"
+            if first == "write_to_file":      # every file the writer produces has to be valid, also the one a REUSED writer produces
                 ctx.tag("doc/second-write-of-one-writer")
                 w.write_to_file(path + ".first", OverwriteExistingFile.ALWAYS)
-            w.write_to_file(path, OverwriteExistingFile.ALWAYS)
+            elif first == "write_scenario_to_file":
+                ctx.tag("doc/second-write-of-one-writer", "writer/after-write_scenario_to_file")
+                w.write_scenario_to_file(path + ".first", OverwriteExistingFile.ALWAYS)
+            elif first == "fail":             # a write that fails at the very end (directory does not exist)
+                ctx.tag("writer/after-failed-write")
+                try:
+                    w.write_to_file(os.path.join(ctx.tmpdir(), "no", "such", "dir", "x.xml"), OverwriteExistingFile.ALWAYS)
+                except OSError:
+                    pass
+            elif first == "fail_mid":         # a write that fails half-way (after the scenario, inside the planning problems)
+                ctx.tag("writer/after-failed-write", "writer/after-half-written")
+                saved = _poison(pps)
+                try:
+                    w.write_to_file(path + ".first", OverwriteExistingFile.ALWAYS)
+                except Exception:  # noqa
+                    pass
+                finally:
+                    pps._planning_problem_dict = saved
+            elif first == "skip":             # SKIP on an existing file writes nothing and must leave the writer usable
+                ctx.tag("writer/after-skipped-write")
+                with open(path, "w") as f:
+                    f.write("<junk/>")
+                w.write_to_file(path, OverwriteExistingFile.SKIP)
+                if open(path).read() != "<junk/>":
+                    ctx.fail("C03/write/skip-overwrites", "write_to_file(existing file, OverwriteExistingFile.SKIP) changed the file",
+                             {"kind": "doc", "spec": spec})
+            args = {"check_validity": True} if W.get("check_validity") else {}
+            if args:
+                ctx.tag("writer/check_validity=True")
+            if W.get("filename_none"):
+                ctx.tag("writer/filename-none")
+                os.chdir(ctx.tmpdir())
+                w.write_to_file(None, OverwriteExistingFile.ALWAYS, **args)
+                path = os.path.join(ctx.tmpdir(), str(sc.scenario_id) + ".xml")
+            else:
+                w.write_to_file(path, OverwriteExistingFile.ALWAYS, **args)
     except Exception as e:  # noqa
         return "write", e
-    return "ok", (path, sc, pps, sc.location, sc.tags)
+    finally:
+        os.chdir(cwd)
+    return "ok", (path, sc, pps, eff_loc, eff_tags, meta, eff_prec, tags_seen)
 
 
 def run_doc(ctx, spec, mutants=8, correspond=True):
@@ -754,17 +904,44 @@ def run_doc(ctx, spec, mutants=8, correspond=True):
         _state.setdefault("build_errors", []).append(payload)
         return
     ctx.case(case)
-    ctx.tag(f"precision/{spec['precision']}")
+    if ((spec.get("var") or {}).get("writer") or {}).get("precision", "spec") == "spec":
+        ctx.tag(f"precision/{spec['precision']}")
     number_tags(ctx, spec)
     if st == "write":
-        ctx.fail(f"C03/write/raises-{err_class(payload)}", f"XMLFileWriter.write_to_file raised {type(payload).__name__}: "
+        fn = _writer_function(payload)
+        ctx.fail(f"C03/write/raises-{err_class(payload)}/{fn}", f"XMLFileWriter.write_to_file raised {type(payload).__name__} in {fn}: "
                  f"{str(payload)[:200]}", case)
         return
-    path, sc, pps, loc, tags = payload
+    path, sc, pps, loc, tags, meta, eff_prec, hist_tags = payload
+    V = spec.get("var") or {}
     doc = etree.parse(path)
     root = doc.getroot()
     # ---- oracle 1: the shipped XSD (lxml)
     ok, errs = lxml_verdict(doc)
+    # Scenario.remove_lanelet may leave the quantifier (an intersection incoming without lanelets, goal lanelets of the planning
+    # problems, which the scenario does not know): the decidable hypothesis of C03_valid_doc (CR.C03.Expressible) on the data read
+    # off the objects decides, not the outcome.  Every other history has to stay expressible (compared below).
+    risky = "hist/remove-lanelet" in hist_tags
+    data = tres = None
+    if correspond or (risky and not ok):
+        try:
+            data = doc_data(sc, pps, loc, tags, meta, eff_prec, root.get("date"))
+            tres = ctx.driver.ask("C03", "tree", {"doc": data})
+        except Exception as e:  # noqa  -- objects outside the modelled data (reported through the oracle / other ops)
+            data = None
+            ctx.tag("tree/data-unavailable")
+    if "hist/network-copy-dangling-left-of" in hist_tags:
+        ctx.fail("C03/history/create_from_lanelet_network/left-of-dropped-incoming", "LaneletNetwork.create_from_lanelet_network(network) "
+                 "(a plain copy) drops the incomings without successors but keeps the isLeftOf references to them: the written file has "
+                 "a dangling isLeftOf", case)
+        return
+    if risky and tres is not None and not tres["expressible"]:
+        ctx.excluded += 1
+        ctx.tag("hist/left-the-quantifier")
+        _state.setdefault("left", []).append((V.get("hist"), tres["why"], ok))
+        ctx.compare({"kind": "inexpressible-after-history", "spec": spec}, {"valid": ok}, {"valid": tres["valid"]},
+                    f"lxml on the written file vs CR.Xsd.validDoc on the model tree (scenario not expressible: {tres['why']})")
+        return
     if ok:
         ctx.tag("doc/valid")
     seen = set()
@@ -772,20 +949,47 @@ def run_doc(ctx, spec, mutants=8, correspond=True):
         k = xsd_key(err)
         if k not in seen:
             seen.add(k)
-            ctx.fail(k, f"written file is invalid against the 2020a XSD (precision {spec['precision']}): {err.message[:220]}", case)
+            ctx.fail(k, f"written file is invalid against the 2020a XSD (precision {eff_prec}): {err.message[:220]}", case)
     # ---- oracle 2: plain decimal notation everywhere
     for where, text in scan_numbers(root)[:3]:
         ctx.fail(f"C03/number/not-plain-decimal/{where}", f"<{where}> is written as {text!r} (exponent form / nan / inf)", case)
-    # ---- oracle 3: the library's own reader
+    # ---- oracle 3: the library's own reader (all three entry points)
     from commonroad.common.file_reader import CommonRoadFileReader
+    how = V.get("hseed", 0) % 6 if V else 0
     try:
-        with_timeout(20, lambda: CommonRoadFileReader(path).open())
+        if how == 1:
+            ctx.tag("entry/reader-lanelet-assignment")
+            with_timeout(20, lambda: CommonRoadFileReader(path).open(lanelet_assignment=True))
+        elif how == 2:
+            ctx.tag("entry/reader-network-only")
+            with_timeout(20, lambda: CommonRoadFileReader(path).open_lanelet_network())
+        else:
+            with_timeout(20, lambda: CommonRoadFileReader(path).open())
         ctx.tag("doc/reader-ok")
     except _Timeout:
         ctx.fail("C03/reader/does-not-return", "CommonRoadFileReader.open() did not return within 20 s on the written file", case)
     except Exception as e:  # noqa
-        ctx.fail(f"C03/reader/raises-{err_class(e)}", f"CommonRoadFileReader.open() rejects the written file: {type(e).__name__}: "
-                 f"{str(e)[:200]}", case)
+        entry = ["open()", "open(lanelet_assignment=True)", "open_lanelet_network()"][how if how < 3 else 0]
+        key = f"C03/reader/raises-{err_class(e)}"
+        if how == 1:      # only this entry point?  then the key names it and the reader function that failed
+            try:
+                with_timeout(20, lambda: CommonRoadFileReader(path).open())
+                key = f"C03/reader/lanelet_assignment/{_reader_function(e)}"
+            except Exception:  # noqa
+                pass
+        ctx.fail(key, f"CommonRoadFileReader ({entry}) rejects the written file: {type(e).__name__}: {str(e)[:200]}", case)
+    # ---- oracle 4: the writer's own validity check agrees with the shipped XSD (on the file and on a broken copy)
+    if V and V.get("hseed", 0) % 4 == 0:
+        from commonroad.common.file_writer import CommonRoadFileWriter
+        ctx.tag("entry/check_validity")
+        raw = open(path, "rb").read()
+        got = CommonRoadFileWriter.check_validity_of_commonroad_file(raw)
+        if bool(got) != bool(ok):
+            ctx.fail("C03/check_validity/disagrees-with-xsd", f"check_validity_of_commonroad_file = {got} on a file lxml finds "
+                     f"{'valid' if ok else 'invalid'} against the shipped XSD", case)
+        broken = raw.replace(b"<location>", b"<location><bogus/>", 1)
+        if CommonRoadFileWriter.check_validity_of_commonroad_file(broken):
+            ctx.fail("C03/check_validity/accepts-invalid", "check_validity_of_commonroad_file accepts a file with an unknown element", case)
     if not correspond:
         return
     # ---- correspondence A: Lean validator vs lxml on the real document
@@ -800,18 +1004,13 @@ def run_doc(ctx, spec, mutants=8, correspond=True):
         items = []
         ctx.tag("builder/unpaired")
     if items:
-        out = ctx.driver.ask("C03", "kids", {"items": [[b, p] for b, p, _ in items]})
+        plain = json.loads(json.dumps([[b, p] for b, p, _ in items], default=lambda o: o.item()))      # numpy scalars -> Python values
+        out = ctx.driver.ask("C03", "kids", {"items": plain})
         for (b, p, actual), model in zip(items, out):
             ctx.tag(f"builder/{b}")
             ctx.compare({"kind": "kids", "builder": b, "params": p}, actual, model, f"children of <{b}> vs CR.XmlW.{b}Kids")
     # ---- correspondence B2: the whole tree — model encoder (CR.XmlW.docNode) on the data read off the objects vs the writer
-    try:
-        data = doc_data(sc, pps, loc, tags, (spec["author"], spec["affiliation"], spec["source"]), spec["precision"], root.get("date"))
-    except Exception as e:  # noqa  -- objects outside the modelled data (reported through the oracle / other ops)
-        data = None
-        ctx.tag("tree/data-unavailable")
-    if data is not None:
-        tres = ctx.driver.ask("C03", "tree", {"doc": data})
+    if data is not None and tres is not None:
         real = tree_json(root)
         diff = tree_diff(real, tres["tree"])
         ctx.tag("tree/compared")
@@ -929,7 +1128,19 @@ def _lex_table(ctx):
         ctx.compare({"kind": "lex", "s": s}, bool(XS_DECIMAL.match(s.strip(" \t\r\n"))), m, "oracle regex vs CR.Xsd.isDecimal")
 
 
+def check_dimension_table(ctx):
+    """The generator's dimension table against the live signatures: an unknown parameter / setter / method is an infrastructure
+    error (the generator has to be extended before a verdict means anything)."""
+    import c03_dims
+    from common import InfraError
+    bad = c03_dims.check_dimensions()
+    if bad:
+        raise InfraError("C03 generator dimension table (harness/c03_dims.py) does not match the library: " + "; ".join(bad[:8]))
+    ctx.tag("dims/table-checked")
+
+
 def run(ctx, docs=260, numbers=4000, mutants=8):
+    check_dimension_table(ctx)
     for p in sorted(glob.glob(os.path.join(CORPUS_DIR, "C03", "*.json"))):
         run_case(ctx, json.load(open(p)))
     _lex_table(ctx)
@@ -939,6 +1150,7 @@ def run(ctx, docs=260, numbers=4000, mutants=8):
         spec = c03_gen.gen_spec(r, REPO)
         if i < 12:
             spec["precision"] = i + 1          # every precision in every run
+            spec["var"]["writer"]["precision"] = "spec"
         run_doc(ctx, spec, mutants=mutants)
     for i in range(ctx.n(numbers)):
         run_number(ctx, {"kind": "num", "x": gen_number(r), "p": r.randint(0, 12) if i % 7 else r.choice([1, 4, 12])})
@@ -1010,4 +1222,31 @@ def shrink(case, key):
             cand["location"][f] = None
             if fails(cand):
                 spec = cand
+    # the dimensions beyond the content: none at all, else one history step / writer option / flag at a time
+    if spec.get("var"):
+        cand = copy.deepcopy(spec)
+        cand["var"] = None
+        if fails(cand):
+            return {"kind": "doc", "spec": cand}
+        plain = {"cls": "facade", "override": False, "precision": "spec", "first": None, "decoy": False, "pb_between": False,
+                 "check_validity": False, "filename_none": False}
+        for op in list(spec["var"].get("hist") or []):
+            cand = copy.deepcopy(spec)
+            cand["var"]["hist"].remove(op)
+            if fails(cand):
+                spec = cand
+        for k, v in plain.items():
+            if (spec["var"].get("writer") or {}).get(k, v) != v:
+                cand = copy.deepcopy(spec)
+                cand["var"]["writer"][k] = v
+                if fails(cand):
+                    spec = cand
+        for k, v in (("setters", False), ("np", False), ("np32", False), ("entry", "single"), ("refs_by_library", False), ("cleanup", False),
+                     ("lanelet3d", False), ("dup_refs", False), ("goal_cls", "CustomState"), ("pos_list", False), ("geo_default", False),
+                     ("np_state", False), ("sid", {"cooperative": False, "prediction": None})):
+            if spec["var"].get(k, v) != v:
+                cand = copy.deepcopy(spec)
+                cand["var"][k] = v
+                if fails(cand):
+                    spec = cand
     return {"kind": "doc", "spec": spec}
